@@ -55,6 +55,8 @@ struct Preprocessor {
     helpers: Vec<HelperForm>,
     strict: bool,
     stored_macros: HashMap<Vec<u8>, Rc<SExp>>,
+    // Names of the include files currently being read, outermost first.
+    include_stack: Vec<Vec<u8>>,
 }
 
 fn compose_defconst(loc: Srcloc, name: &[u8], sexp: Rc<SExp>) -> Rc<SExp> {
@@ -106,12 +108,40 @@ impl Preprocessor {
             helpers: Vec::new(),
             strict: opts.dialect().strict,
             stored_macros: HashMap::default(),
+            include_stack: Vec::new(),
         }
     }
 
     /// Given a specification of an include file, load up the forms inside it and
     /// return them (or an error if the file couldn't be read or wasn't a list).
+    // A file that includes itself, directly or through other files, would be
+    // read without end.
+    fn enter_include(&mut self, include: &IncludeDesc) -> Result<(), CompileErr> {
+        if self.include_stack.contains(&include.name) {
+            return Err(CompileErr(
+                include.nl.clone(),
+                format!(
+                    "include file {} includes itself",
+                    decode_string(&include.name)
+                ),
+            ));
+        }
+        self.include_stack.push(include.name.clone());
+        Ok(())
+    }
+
     pub fn process_include(
+        &mut self,
+        includes: &mut Vec<IncludeDesc>,
+        include: &IncludeDesc,
+    ) -> Result<Vec<Rc<SExp>>, CompileErr> {
+        self.enter_include(include)?;
+        let result = self.process_include_file(includes, include);
+        self.include_stack.pop();
+        result
+    }
+
+    fn process_include_file(
         &mut self,
         includes: &mut Vec<IncludeDesc>,
         include: &IncludeDesc,
@@ -200,6 +230,17 @@ impl Preprocessor {
 
     // Support using the preprocessor to collect dependencies recursively.
     fn recurse_dependencies(
+        &mut self,
+        includes: &mut Vec<IncludeDesc>,
+        desc: IncludeDesc,
+    ) -> Result<(), CompileErr> {
+        self.enter_include(&desc)?;
+        let result = self.recurse_dependencies_of_file(includes, desc);
+        self.include_stack.pop();
+        result
+    }
+
+    fn recurse_dependencies_of_file(
         &mut self,
         includes: &mut Vec<IncludeDesc>,
         desc: IncludeDesc,
